@@ -158,9 +158,26 @@ def c17_6(ctx):
     defs = {unparse(n.targets[0]): unparse(n.value) for n in walk_no_nested(eng.node) if isinstance(n, ast.Assign) and isinstance(n.targets[0], ast.Name)
             and isinstance(n.value, ast.Call) and unparse(n.value.func) == 'os.path.realpath'}
 
+    # names bound to one element of the directory list (loop / comprehension variables over it, its slices or its enumeration)
+    elems = set()
+    for n in ast.walk(eng.node):
+        it, tg = None, None
+        if isinstance(n, ast.For):
+            it, tg = n.iter, n.target
+        elif isinstance(n, ast.comprehension):
+            it, tg = n.iter, n.target
+        if it is None:
+            continue
+        t_it = unparse(it)
+        if _re.fullmatch(r'include_dirs(\[[^\]]*\])?', t_it) and isinstance(tg, ast.Name):
+            elems.add(tg.id)
+        elif _re.fullmatch(r'enumerate\(include_dirs(\[[^\]]*\])?\)', t_it) and isinstance(tg, ast.Tuple) and len(tg.elts) == 2 and isinstance(tg.elts[1], ast.Name):
+            elems.add(tg.elts[1].id)
+
     def _real(e):
         t = defs.get(unparse(e), unparse(e))
-        return bool(_re.fullmatch(r'os\.path\.realpath\(include_dirs\[\w+\]\)', t))
+        m_ = _re.fullmatch(r'os\.path\.realpath\((.+)\)', t)
+        return bool(m_) and (bool(_re.fullmatch(r'include_dirs\[\w+\]', m_.group(1))) or m_.group(1) in elems)
     cmps = [c for c in ast.walk(eng.node) if isinstance(c, ast.Compare) and any(unparse(x) in defs or 'realpath' in unparse(x) or 'include_dirs[' in unparse(x)
                                                                                  for x in [c.left] + list(c.comparators))]
     ok = len(cmps) >= 1 and all(len(c.ops) == 1 and isinstance(c.ops[0], (ast.Eq, ast.NotEq)) and _real(c.left) and _real(c.comparators[0]) for c in cmps)
